@@ -161,9 +161,9 @@ pub fn c12_fresh_counter() {
 #[test]
 fn verif_replay_entry() {
     let hn = std::env::var("VERIF_REPLAY_HARNESS").unwrap_or_default();
-    if hn == "validate_sequence" || hn == "cleanup" {
+    if hn == "validate_sequence" || hn == "cleanup" || hn == "batch" {
         let case: serde_json::Value = serde_json::from_str(&std::env::var("VERIF_REPLAY_CASE").unwrap_or_default()).expect("case json");
-        let obs = if hn == "cleanup" { driver::cleanup(&case) } else { driver::validate_sequence(&case) };
+        let obs = if hn == "cleanup" { driver::cleanup(&case) } else if hn == "batch" { driver::batch(&case) } else { driver::validate_sequence(&case) };
         println!("VERIF-OBS {}", obs);
         return;
     }
@@ -226,6 +226,41 @@ mod driver {
             Some(c) => json!({"current": c.current_sequence, "last": c.last_valid_sequence, "updated": c.last_updated, "replay": c.replay_attempts, "gaps": c.sequence_gaps,
                               "history": c.sequence_history.iter().map(|e| json!([e.sequence, e.timestamp, e.message_hash.to_vec()])).collect::<Vec<_>>()}),
         }
+    }
+
+    pub fn batch(case: &Value) -> Value {
+        let same = case["__params"]["same_user"].as_bool().unwrap_or(true);
+        let users = [("other", UserId { hash: bytes32(case, "o") }), ("cand", UserId { hash: bytes32(case, "u") })];
+        let mut map = HashMap::new();
+        for (label, uid) in &users {
+            if let Some(c) = slot_counter(case, &format!("M@{label}")) {
+                map.insert(uid.clone(), c);
+            }
+        }
+        let sys = MonotonicCounterSystem {
+            counters: Arc::new(RwLock::new(map)), storage_path: PathBuf::new(), sync_interval: Duration::from_secs(30), sync_task: None,
+            stats: Arc::new(Mutex::new(CounterStats::default())),
+        };
+        let mk = |i: usize, uid: &UserId| BatchUpdateRequest { user_id: uid.clone(), sequence: u(case, &format!("q{i}.seq")), message_hash: bytes32(case, &format!("q{i}.hash")), timestamp: u(case, &format!("q{i}.ts")) };
+        let reqs = vec![mk(0, &users[1].1), mk(1, if same { &users[1].1 } else { &users[0].1 })];
+        let rt = tokio::runtime::Builder::new_current_thread().build().unwrap();
+        vp::clock::reset();
+        vp::clock::push_real(u(case, "now.s"), 0);
+        vp::clock::arm(true);
+        let r = rt.block_on(sys.batch_update(reqs));
+        vp::clock::arm(false);
+        vp::clock::reset();
+        let mut out = Map::new();
+        out.insert("ok".into(), json!(r.is_ok()));
+        let rs = r.unwrap_or_default();
+        out.insert("applied".into(), json!(rs.iter().map(|x| x.applied).collect::<Vec<_>>()));
+        out.insert("results".into(), json!(rs.iter().map(|x| match x.result { SequenceValidationResult::Valid => "Valid", SequenceValidationResult::Replay => "Replay",
+            SequenceValidationResult::TooOld => "TooOld", SequenceValidationResult::Gap { .. } => "Gap", SequenceValidationResult::FromFuture => "FromFuture" }).collect::<Vec<_>>()));
+        let m = sys.counters.read().unwrap();
+        for (label, uid) in &users {
+            out.insert(format!("post@{label}"), obs_counter(m.get(uid)));
+        }
+        Value::Object(out)
     }
 
     pub fn cleanup(case: &Value) -> Value {
